@@ -248,8 +248,11 @@ type NegationNode struct {
 }
 
 func parseNegation(p *parser, t token) (Node, error) {
+	// The sign belongs to its operand: it binds tighter than the
+	// multiplicative operators (whose level is the next one above
+	// the binary minus), so that 8 / -4 / 2 is (8 / -4) / 2.
 	return &NegationNode{
-		RHS: p.parseExpression(p.bp(t.Type)),
+		RHS: p.parseExpression(p.bp(typeMult)),
 	}, nil
 }
 
